@@ -8,7 +8,7 @@ import copy
 from ..cfg import build_cfg, calls_in, node_calls
 from ..core import Ctx, property_info, rule, share
 from ..model import AnalysisError, ClassInfo, FuncInfo, anon_text, walk_no_nested
-from ..q import Dispatch, alternatives, flow_conditions, flows, forms, call_name_of, guarded_subscripts, names_from_calls, return_values, A, MUTATORS, asrc, is_self_attr, kwarg, root_name, stores, unparse
+from ..q import Dispatch, alternatives, control_deps, flow_conditions, flows, forms, call_name_of, guarded_subscripts, names_from_calls, return_values, A, MUTATORS, asrc, is_self_attr, kwarg, root_name, stores, unparse
 
 SER = "xsdata.formats.dataclass.serializers"
 PAR = "xsdata.formats.dataclass.parsers"
@@ -358,11 +358,14 @@ def source_kind_dispatch(ctx: Ctx) -> None:
         stream = [n for n in g.stmts() if any(unparse(c.func) == "etree.iterparse" for c in node_calls(n))]
         ok = bool(stream) and bool(xi) and all(g.only_if(s.id, xi[0].id, False) for s in stream)
         ctx.ob(f"{fi.cls.name}.parse streams otherwise", ok, at=fi, construct="stream dispatch", msg="streaming branch changed")
-        last = fi.node.body[-1]
-        ctx.ob(f"{fi.cls.name}.parse hands every source kind to process_context(ctx, ns_map)", A(anon_text(last, fi.node)) == A("return self.process_context(_, _)"), at=fi, node=last, construct="single pump", msg="a source kind bypasses the shared event pump")
+        rv = return_values(fi.node)
+        ctx.ob(f"{fi.cls.name}.parse hands every source kind to process_context(ctx, ns_map)", bool(rv) and all(isinstance(v, ast.Call) and unparse(v.func) == "self.process_context" and len(v.args) == 2 and unparse(v.args[1]) == "ns_map" for v in rv),
+               at=fi, construct="single pump", msg="a source kind bypasses the shared event pump")
     nat = ctx.repo.func(f"{PAR}.handlers.native:XmlEventHandler.parse")
-    a = asrc(nat)
-    ctx.ob("native xinclude resolves hrefs against base_url / the source path", A("get_base_url(self.parser.config.base_url,_)") in a and A("functools.partial(xinclude_loader,base_url=_)") in a and A("xinclude.include(_,loader=_)") in a, at=nat,
+    nc_ = calls_in(nat.node)
+    ok = any(call_name_of(c) == "get_base_url" and c.args and unparse(c.args[0]) == "self.parser.config.base_url" for c in nc_) and any(unparse(c.func) == "xinclude.include" and kwarg(c, "loader") is not None for c in nc_) \
+        and any(isinstance(x, ast.Name) and x.id == "xinclude_loader" for x in walk_no_nested(nat.node)) and any(k.arg == "base_url" for c in nc_ for k in c.keywords)
+    ctx.ob("native xinclude resolves hrefs against base_url / the source path", ok, at=nat,
            construct="native base url", msg="relative XInclude hrefs resolved differently from lxml")
     lx = ctx.repo.func(f"{PAR}.handlers.lxml:LxmlEventHandler.parse")
     ctx.ob("lxml xinclude parses with base_url=config.base_url", any(unparse(c.func) == "etree.parse" and unparse(kwarg(c, "base_url") or ast.Constant(0)) == "self.parser.config.base_url" for c in calls_in(lx.node)), at=lx,
@@ -530,7 +533,7 @@ def in_scope_map_reaches_resolvers(ctx: Ctx) -> None:
         if txt in ("ElementNode",):
             n += 1
             ctx.ob("NodeParser.start: root ElementNode(ns_map=ns_map, attrs=attrs)", unparse(kwarg(c, "ns_map") or ast.Constant(0)) == "ns_map" and unparse(kwarg(c, "attrs") or ast.Constant(0)) == "attrs", at=st, node=c, msg="root node gets another map")
-        if txt == "item.child":
+        if call_name_of(c) == "child" and isinstance(c.func, ast.Attribute) and isinstance(c.func.value, ast.Name) and len(c.args) >= 3:
             n += 1
             ctx.ob("NodeParser.start: item.child(qname, attrs, ns_map, len(objects))", [unparse(a) for a in c.args] == ["qname", "attrs", "ns_map", "len(objects)"], at=st, node=c, msg="child created with other arguments")
     ctx.floor("map hand-offs in NodeParser.start", n, 3)
@@ -596,7 +599,13 @@ def tail_normalisation(ctx: Ctx) -> None:
                        msg="whitespace-only tails between child elements would be bound as text (indentation changes the object)")
     ctx.floor("tail appends", n, 4)
     nc = ctx.repo.func(f"{PAR}.utils:ParserUtils.normalize_content")
-    ctx.ob("normalize_content maps empty and whitespace-only strings to None and returns other values unchanged", A("if_and_.strip():;return_;returnNone") in asrc(nc), at=nc, construct="normalize_content", msg="normalisation changed")
+    gn = build_cfg(nc.node)
+    param = [a.arg for a in nc.pos_params if a.arg not in ("self", "cls")][0]
+    rets = gn.returns()
+    same = [r for r in rets if isinstance(r.ast.value, ast.Name) and r.ast.value.id == param]
+    none = [r for r in rets if r.ast.value is None or (isinstance(r.ast.value, ast.Constant) and r.ast.value.value is None)]
+    ok = bool(same) and len(same) + len(none) == len(rets) and all(any(txt == "_.strip()" and pol for txt, pol, _ in control_deps(nc, r)) for r in same) and (bool(none) or gn.must_pass(gn.entry, gn.exit, [r.id for r in same]) is False)
+    ctx.ob("normalize_content returns the value itself (unchanged) only when it has non-whitespace content, else None", ok, at=nc, construct="normalize_content", msg="normalisation changed")
     bw = ctx.repo.func(f"{PAR}.nodes.element:ElementNode.bind_wild_text")
-    a = asrc(bw)
-    ctx.ob("bind_wild_text normalises both text and tail", a.count("=ParserUtils.normalize_content(_)") >= 2, at=bw, construct="wild text normalised", msg="whitespace-only text/tail bound into generic elements")
+    normed = {unparse(c.args[0]) for c in calls_in(bw.node) if call_name_of(c) == "normalize_content" and c.args}
+    ctx.ob("bind_wild_text normalises both text and tail", {"text", "tail"} <= normed, at=bw, construct="wild text normalised", msg="whitespace-only text/tail bound into generic elements")
